@@ -768,6 +768,140 @@ def wr6(p, res):
 
 
 # ------------------------------------------------------------------ NRM-1
+def nrm2(p, res, rule="NRM-2"):
+    """right shifts: every limb of the operand passes through the carry chain once, and the chain then crosses the `steps` limb positions the value is moved down by.  The number
+    of chain steps (trip counts of the loops that hand the carry buffer to a normalisation step, plus helper loops over the carry) therefore equals  size(operand) + steps  for
+    every operand size, result size and shift - a piecewise-linear identity in the sizes.  A chain that is shorter deposits the carry too high (the result is too large by a
+    power of the radix when the shift exceeds the precision of the result)."""
+    from . import pwl, sc
+    n = 0
+    for f in sorted(p.lib_fns(), key=lambda x: x.uid):
+        if f.kind == "Closure" or not f.uid.startswith("poulpy_cpu_ref::reference::vec_znx::shift") or "rsh" not in f.name or f.name.endswith("tmp_bytes"):
+            continue
+        flow = Flow(f, transparent=("split_at_mut", "index_mut", "deref_mut", "as_mut"))
+        sym = Sym(f, Flow(f))
+        g = CFG(f)
+        # chain sites: block -> contribution per execution (1 for a step kernel, the count argument for a helper that loops over the carry)
+        sites = {}
+        for bi, t in f.calls():
+            d = f.callee_def(t) or {}
+            cn = d.get("n", "")
+            if cn.startswith("znx_normalize_") and t["a"]:
+                sites[bi] = Poly.const(1)
+            elif d.get("u", "").startswith("poulpy_cpu_ref::reference::vec_znx") and not cn.startswith("znx_"):
+                h = p.fn(d["u"])
+                if h is None or not h.blocks:
+                    continue
+                hg = CFG(h)
+                hflow = Flow(h)
+                hsym = Sym(h, hflow)
+                cnt = None
+                for b2, t2 in h.calls():
+                    if (h.callee_def(t2) or {}).get("n") == "next" and hg.innermost_loop(b2) is not None:
+                        rb = _range_bounds(h, hflow, hsym, t2)
+                        if rb is not None:
+                            at = list(rb[1].atoms())
+                            if rb[0].is_const() and (rb[0].const_value() or 0) == 0 and len(at) == 1 and at[0][0] == "p" and not at[0][2] and at[0][1] - 1 < len(t["a"]):
+                                cnt = sym.operand(t["a"][at[0][1] - 1])
+                if cnt is not None:
+                    sites[bi] = cnt
+        if not sites:
+            continue
+        # loops that contain a chain site, with their trip counts
+        trips = {}
+        outside = Poly()
+        bad_loop = False
+        for bi, contrib in sites.items():
+            l = g.innermost_loop(bi)
+            if l is None:
+                outside = outside + contrib
+                continue
+            h = l["header"]
+            if h in trips:
+                continue
+            tc = None
+            for b2 in sorted(l["body"]):
+                t2 = f.blocks[b2]["t"]
+                if t2 and t2["k"] == "Call" and (f.callee_def(t2) or {}).get("n") == "next" and g.innermost_loop(b2) is l:
+                    rb = _range_bounds(f, Flow(f), sym, t2)
+                    if rb is not None:
+                        tc = (rb[0], rb[1])
+            if tc is None:
+                bad_loop = True
+            trips[h] = tc
+        if bad_loop:
+            res.undec(rule, "%s: a carry-chain loop is not a plain range" % f.pretty)
+            continue
+        # one representative path per set of chain loops (const-generic branches select different loops)
+        paths = sc.returning_paths(f, g, cap=400) or []
+        combos = set()
+        for path in paths:
+            combos.add(tuple(sorted(h for h in trips if h in path)))
+        if not combos:
+            continue
+        src = None
+        pn = {v: k for k, v in f.param_names().items()}
+        src_param = pn.get("a", pn.get("res"))
+        size_atoms = set()
+        for tc in trips.values():
+            for pl in tc:
+                for a in _all_atoms(pl):
+                    if a[0] == "f" and a[1] == "size":
+                        size_atoms.add(a)
+        src_size = [a for a in size_atoms if any(x[0] == "p" and x[1] == src_param for mono, c in a[2][0] for x in mono)]
+        others = set()
+        for tc in trips.values():
+            for pl in tc:
+                for a in _all_atoms(pl):
+                    if a[0] in ("phi", "p", "call") or (a[0] == "f" and a[1] not in ("size", "min", "max", "saturating_sub")):
+                        others.add(a)
+        if len(src_size) != 1 or len(others) != 1:
+            res.undec(rule, "%s: chain trip counts depend on %d size atom(s) of the operand and %d other quantities" % (f.pretty, len(src_size), len(others)))
+            continue
+        n += 1
+        S = Poly.atom(list(others)[0])
+        A = Poly.atom(src_size[0])
+        bad = None
+        for combo in sorted(combos):
+            for val in pwl.valuations(count=3000, hi=9):
+                ev = pwl.Eval(p, val)
+                ev.syms[f.uid] = sym
+                try:
+                    tot = ev.poly(outside)
+                    for h in combo:
+                        lo, hi = trips[h]
+                        per = [c for b, c in sites.items() if g.innermost_loop(b) is not None and g.innermost_loop(b)["header"] == h]
+                        # several sites of one loop lie on exclusive branches (first / middle / final step): one step per iteration
+                        tot += max(ev.poly(hi) - ev.poly(lo), 0) * max(ev.poly(c) for c in per)
+                    want = ev.poly(A) + ev.poly(S)
+                except pwl.ErrPath:
+                    continue
+                if tot != want and bad is None:
+                    bad = {"operand_limbs": ev.poly(A), "steps": ev.poly(S), "chain_steps": tot, "valuation": {k[:50]: v for k, v in ev.val.items() if k != "__fresh__"}}
+        if bad:
+            res.bad(rule, f.pretty, "carry-chain-length",
+                    "%s: with %d operand limb(s) and a shift of %d limb position(s) the carry passes through %d normalisation steps instead of %d: the carry out of the top limb is deposited "
+                    "%d limb(s) too high (shift larger than the precision of the result)" % (f.pretty, bad["operand_limbs"], bad["steps"], bad["chain_steps"], bad["operand_limbs"] + bad["steps"],
+                                                                                           bad["operand_limbs"] + bad["steps"] - bad["chain_steps"]), site=f.where(), detail=bad)
+        else:
+            res.ok(rule, {"fn": f.pretty, "chain_loops": len(trips), "law": "steps of the chain == size(operand) + steps"})
+    return n
+
+
+def _all_atoms(pl, depth=0):
+    out = []
+    for a in pl.atoms():
+        out.append(a)
+        if a[0] == "f" and a[1] != "size" and depth < 5:
+            for k in a[2]:
+                if isinstance(k, tuple):
+                    try:
+                        out += _all_atoms(Poly(dict(k)), depth + 1)
+                    except (TypeError, ValueError):
+                        pass
+    return out
+
+
 def nrm1(p, res, rule="NRM-1"):
     """carry chains of the shift / normalisation shape functions: the final step consumes the carry - on no feasible path (two traversals per
     loop, first / last iteration tests on the loop variable respected) is the same carry buffer handed to another middle or final step afterwards"""
